@@ -109,12 +109,37 @@ def gen_taps(n, p, seed, drift):
     return taps
 
 
+def gen_taps_sparse(n, p, seed, drift):
+    """taps for the LONG windows (6 ..= 16 taps): n - 2 distinct signed powers of two (2^(p-1), 2^(p-2), ...; every third one negative), one small odd
+    dense tap and one dense tap that makes the sum 2^p + drift, placed by a seed-dependent permutation.  The product pixel x 2^j is a plain
+    shift for the SAT solver, which keeps long windows tractable (dense 12 - 16 tap windows: no answer in 25 min per 8 destination bytes),
+    while every tap position still carries a distinct coefficient (a permuted / skipped / repeated tap changes the result)."""
+    assert 6 <= n <= p + 2
+    pw = []
+    for j in range(n - 2):
+        v = 1 << (p - 1 - j)
+        pw.append(-v if j % 3 == 2 else v)
+    a = 301 + 2 * (seed % 97)
+    b = (1 << p) + drift - sum(pw) - a
+    while b == 0 or (abs(b) & (abs(b) - 1)) == 0 or abs(b) in [abs(v) for v in pw]:
+        b += 2
+    taps = pw + [a, b]
+    x = (seed * 2654435761 + 977) & 0x7FFFFFFF
+    for i in range(n - 1, 0, -1):                      # Fisher-Yates with the LCG
+        x = (x * 1103515245 + 12345) & 0x7FFFFFFF
+        j = (x >> 8) % (i + 1)
+        taps[i], taps[j] = taps[j], taps[i]
+    assert all(-32768 <= v <= 32767 for v in taps) and len(set(taps)) == n
+    assert sum(abs(v) for v in taps) < (4 << p) and sum(v for v in taps if v > 0) >= (1 << p)
+    return taps
+
+
 def groups_of(p, specs, seed0):
     """specs: [(start, len) | (start, [taps])] -> groups of <= 2 windows (start, taps)"""
     wins = []
     drifts = [3, -5, 700, -650, 0, 41, -37, 1234, -1, 1]
     for i, (s, l) in enumerate(specs):
-        wins.append((s, l if isinstance(l, list) else gen_taps(l, p, seed0 + 7 * i, drifts[i % len(drifts)])))
+        wins.append((s, l if isinstance(l, list) else (gen_taps if l < 6 else gen_taps_sparse)(l, p, seed0 + 7 * i, drifts[i % len(drifts)])))
     return [wins[i:i + 2] for i in range(0, len(wins), 2)]
 
 
@@ -218,7 +243,7 @@ def call_groups(run, p, groups, cover_first=True):
             let mut d_nat = stale;
             %s
 %s        }
-""" % (p, rs_windows(g), run, "            kani::cover!(d_simd[0] == 255);\n            kani::cover!(d_simd[0] == 0);\n" if gi == 0 and cover_first else "")
+""" % (p, rs_windows(g), run, "            kani::cover!(d_simd[0] > 250);\n            kani::cover!(d_simd[0] == 0);\n" if gi == 0 and cover_first else "")
     return calls
 
 
